@@ -57,7 +57,7 @@ _Bool    nondet_bool(void);
 #ifdef WITNESS
 /* vacuity twin: same program, same assumptions; the only assertion is the one at the end,
    which must come back FAILED (the end of the harness is reachable under the assumptions) */
-#define CHECK(c,msg)      ((void)0)
+#define CHECK(c,msg)      ((void)(c))          /* the condition may contain the call under test */
 #define WITNESS_POINT()   __CPROVER_assert(0, "WITNESS: end of harness is reachable")
 #else
 #define CHECK(c,msg)      __CPROVER_assert((c), msg)
